@@ -167,7 +167,7 @@ def run_shard(rec, tier, seed, shard, nshards):
         a_h5, b_h5 = os.path.join(tmp, "a.h5"), os.path.join(tmp, "b.h5")
         for li in range(n_lin):
             control = str(rng.choice(["", "DMSO"]))
-            kw = gen.realistic_screen_kwargs(rng, n_samples=(2, 5), n_rows=(8, 40), n_plates=(2, 7), observed="all", singletons=float(rng.uniform(0.1, 0.3)), control=control, unicode_names=bool(rng.random() < 0.3))
+            kw = gen.realistic_screen_kwargs(rng, n_samples=(2, 5), n_rows=(8, 40), n_plates=(2, 7), observed="all", singletons=float(rng.uniform(0.1, 0.3)), control=control, unicode_names=bool(rng.random() < 0.3), tiny_doses=bool(rng.random() < 0.2))
             try:
                 full = Screen(**kw)
                 root = R.mask_screen(full)
